@@ -5,7 +5,9 @@ From AV Require Import Lib.Base Lib.V Gen.Consts H1.Chunked H1.PayloadDec H1.Fra
   Client.ClientCodec Client.PlStream Client.Pool Client.RespHead Client.Conn.
 Open Scope N_scope.
 
-Record req := mk_req { r_auth : N; r_head : bool; r_read : bool }.
+(* r_close: the request was sent non-persistent (force_close / HTTP/1.0): head.connection_type() = Close *)
+Record req := mk_req { r_auth : N; r_head : bool; r_read : bool; r_close : bool }.
+Definition r_conn (r : req) : ctype := if r_close r then CClose else CKeepAlive.
 
 Record case := mk_case {
   k_f9 : bool; k_f17 : bool;              (* which tree: false = before the fix *)
@@ -99,7 +101,7 @@ Section Run.
         | None => (s, VT "internal" [])
         | Some x =>
             (* the request is written; the server consumes it at its next W *)
-            let '(xr, evs') := conn_exchange simple_rhead H1_MAX_BUFFER_SIZE vv (r_head r) (r_read r) (s_evs x) in
+            let '(xr, evs') := conn_exchange_ct simple_rhead H1_MAX_BUFFER_SIZE vv (r_conn r) (r_head r) (r_read r) (s_evs x) in
             let x' := mk_sconn c (s_auth x) evs' (s_served x ++ [k]) in
             let p2 := match x_fate xr with
                       | FReleased => release a (k + 1) p1
@@ -136,7 +138,7 @@ Section Run.
      is the same) and "peak of open sockets <= limit" (C17_open_limit_single_authority) *)
   Definition run_conc : V :=
     VT "conc" [VL (map (fun r : req =>
-                         let '(xr, _) := conn_exchange simple_rhead H1_MAX_BUFFER_SIZE vv (r_head r) (r_read r)
+                         let '(xr, _) := conn_exchange_ct simple_rhead H1_MAX_BUFFER_SIZE vv (r_conn r) (r_head r) (r_read r)
                                            (script_of (k_conns cs) (r_auth r) 0) in
                          VOutcome (x_out xr)) (k_reqs cs));
                VBool true].
